@@ -254,6 +254,9 @@ def run_exidx(ch):
     generic_disp = ch.pick('generic.personality_displacement', ['small_neg', 'pos', 'bit26'])
     bc_variant = ch.pick('bytecode', ['typical', 'finish_only', 'uleb_vsp', 'all_ff', 'zeros'])
     pad_before = ch.pick('exidx_position', [0, 4, 0x40])
+    # 'stride8': consecutive 8-byte functions - the place-relative word 0 of consecutive entries is then IDENTICAL (and so is word 1 for equal inline / cantunwind
+    # descriptors) although the entries describe different functions
+    later = ch.pick('later_functions', ['one_function', 'stride8'])
     # layout: [null][.text big NOBITS-like logical range][.ARM.extab][.ARM.exidx]
     img.null()
     filler_sz = 0x200 + pad_before
@@ -262,7 +265,8 @@ def run_exidx(ch):
           'finish_only': [0xb0] * 14, 'uleb_vsp': [0xb2, 0x81, 0x01, 0xb0, 0xb2, 0x05, 0xb0, 0xb0, 0xb0, 0xb0, 0xb0, 0xb0, 0xb0, 0xb0],
           'all_ff': [0xff] * 14, 'zeros': [0] * 14}[bc_variant]
     BC = BC + [0xb0] * 8
-    kinds = [kind0] + ['inline', 'table1_1', 'cantunwind', 'generic', 'table0', 'table2_2', 'inline'][: max(0, count - 1)]
+    kinds = [kind0] + (['inline', 'table1_1', 'cantunwind', 'generic', 'table0', 'table2_2', 'inline'] if later == 'one_function' else
+                       ['inline', 'inline', 'cantunwind', 'cantunwind', 'table1_1', 'table1_1', 'inline'])[: max(0, count - 1)]
     kinds = kinds[:count]
     # the extab
     extab = bytearray()
@@ -310,6 +314,8 @@ def run_exidx(ch):
         if i == 0:
             d = {'small_neg': -0x40, 'small_pos': 0x40, 'zero': 0, 'near_2^26_pos': 0x03fffffc, 'near_2^26_neg': -min(place, 0x100),
                  'bit26_only_pos': 0x04000000, 'large_pos': 0x3ffffffc, 'large_neg': -place}[disp]
+        elif later == 'stride8':
+            d = -0x40
         else:
             d = -(8 * i) - 0x10
         fn = place + d
